@@ -1,6 +1,7 @@
 import PestModel.Model.Reader
 import PestModel.Model.ReaderFull
 import PestModel.Model.ReaderP
+import PestModel.Model.Pipeline
 import PestModel.Model.GrammarDriver
 import PestModel.Model.Proto
 /-! Driver mode `read` (one answer line per input line; `<hex …>` = lower/upper-case hex of the UTF-8
@@ -59,9 +60,22 @@ def runR (extras : Bool) (h : String) : String :=
     | _, _ => "MODELS-DISAGREE"
   | none => "bad-op"
 
+/-- `F <hex>`: `pest_meta::parse_and_optimize` on a text — `rules n` / `errors n` / `PANIC` (the model of the whole pipeline). -/
+def runF (extras : Bool) (h : String) : String :=
+  match hexOrDash h with
+  | some t =>
+    match PestModel.Pipeline.parseAndOptimize extras t.toList with
+    | some (.ok rs) => "rules " ++ toString rs.length
+    | some (.err n) => "errors " ++ toString n
+    | some .panic => "PANIC"
+    | none => "stuck"
+  | none => "bad-op"
+
 def runLine (line : String) : String :=
   match words line with
   | "Y" :: _ => "same"
+  | ["F", h] => runF false h
+  | ["FX", h] => runF true h
   | ["R", h] => runR false h
   | ["RX", h] => runR true h
   | ["R", "0", h] => runR false h
